@@ -4,8 +4,10 @@ package http
 
 import (
 	"context"
+	"io"
 	"net/http"
 
+	"github.com/jech/storrent/hash"
 	"github.com/jech/storrent/path"
 	"github.com/jech/storrent/tor"
 )
@@ -77,4 +79,62 @@ func H_C20_single_listing() {
 	torrentEntry(context.Background(), w, t, nil) // a panic is the violation
 	playlist(w, &http.Request{Method: "GET", Host: "localhost:8088"}, t, nil)
 	vReach("listed")
+}
+
+var vRows []path.Path
+
+// vFileRow stands in for torrentFile under H_C20_http_listing: it records which files are listed.
+func vFileRow(w io.Writer, h hash.Hash, p path.Path, length int64, available int) {
+	vRows = append(vRows, p)
+}
+
+var vAB = []string{"a", "b"}
+var vLN2 = [][]string{{"g0.d", "g0.c0", "g0.c1"}, {"g1.d", "g1.c0", "g1.c1"}, {"g2.d", "g2.c0", "g2.c1"}}
+
+// H_C20_http_listing: the HTML directory view of a multi-file torrent (<= 3 files, paths of 1..2
+// components over {a,b}, directory at depth 0 or 1): exactly the files within the directory are
+// listed, each once, in path order.
+func H_C20_http_listing() {
+	nf := vParam("files")
+	var files []tor.Torfile
+	for i := 0; i < nf; i++ {
+		n := vChoose(vLN2[i][0], 1, 2)
+		var p path.Path
+		for k := 0; k < n; k++ {
+			p = append(p, vAB[vChoose(vLN2[i][1+k], 0, 1)])
+		}
+		files = append(files, tor.Torfile{Path: p, Length: 10})
+	}
+	t := tor.VRegister(make([]byte, 20), "t", files, int64(10*nf)+1)
+	var dir path.Path
+	if vParam("dirdepth") == 1 {
+		dir = path.Path{vAB[vChoose("d0", 0, 1)]}
+	}
+	vDead = false
+	vRows = nil
+	torrentEntry(vLiveContext(), &vRW{}, t, dir)
+	vReach("listed")
+	want := 0
+	for _, f := range t.Files {
+		if f.Path.Within(dir) {
+			want++
+			n := 0
+			for _, r := range vRows {
+				if r.Equal(f.Path) {
+					n++
+				}
+			}
+			same := 0
+			for _, g := range t.Files {
+				if g.Path.Equal(f.Path) {
+					same++
+				}
+			}
+			vAssert(n == same, "every file within the directory is listed, once per file")
+		}
+	}
+	vAssert(len(vRows) == want, "nothing outside the directory is listed")
+	for i := 0; i+1 < len(vRows); i++ {
+		vAssert(vRows[i].Compare(vRows[i+1]) <= 0, "files are listed in path order")
+	}
 }
